@@ -355,8 +355,10 @@ def session(R):
     init = R.func('session.WebsocketSession.__init__')
     vals = {}
     for s in own_nodes(init.node):
-        if isinstance(s, ast.Assign) and isinstance(s.targets[0], ast.Attribute) and U(s.targets[0].value) == 'self':
-            vals[s.targets[0].attr] = s.value
+        if isinstance(s, ast.Assign):
+            for t_ in s.targets:
+                if isinstance(t_, ast.Attribute) and U(t_.value) == 'self':
+                    vals[t_.attr] = s.value
     for fld, want in (('_sock', 'None'), ('_poll_start', 'None'), ('_next_ping', 'None'), ('_last_pong', 'None'),
                       ('_start_time', 'None'), ('_ready', 'False')):
         R.ob('C17.session', 'session.%s starts as %s' % (fld, want), fld in vals and U(vals[fld]) == want,
